@@ -254,10 +254,17 @@ def confirm_findings(res, exe):
 # ------------------------------------------------------------------ the check
 def run(res):
     quick = res.tier == "quick"
+    tr = vlib.run_translator("queueswap")
+    gen_status = tr["files"].get("Data/gen/QueueSwapGen.v", {})
     pr = vlib.coq_check_props("Props/C19.v", runners=["Run/QueueSwapRun.v"])
     res.add_proof(pr, CHECKER)
-    res.cov["translator"] = {"note": "no generated file: the tie of this component is the differential correspondence; "
-                             "the ring abstraction stands on Proofs/SafeQueueProofs.ring_refines_list (C03)"}
+    res.cov["translator"] = {"Data/gen/QueueSwapGen.v": gen_status, "shapes": tr["shapes"],
+                             "note": "generated facts = the lock discipline that makes each label atomic; the behaviour of the methods is tied by the "
+                                     "differential correspondence; the ring abstraction stands on Proofs/SafeQueueProofs.ring_refines_list (C03)"}
+    if gen_status.get("status") != "ok":
+        pr = dict(pr, ok=False, failed_file="Data/gen/QueueSwapGen.v (translator)",
+                  error="obligation 'generated atomicity facts = what the model assumes' no longer checks: the translator does not recognise %s" %
+                        gen_status.get("detail", "?")[:700])
     res.cov["trusted_base"] = vlib.TRUSTED_BASE_COMMON + [
         "modelled, not verified: the ring as a list (ring_refines_list); Push / PopQos / Requeue / Purge / one loader turn / one persist as atomic labels "
         "(single-goroutine harness; concurrent overlap of these bodies is the broker-level T2/T3 tiers' business); badger as an ordered map with "
